@@ -82,6 +82,7 @@ def get_start_size__count__c2c_expansion(length, count, c2c_expansion):
 def get_start_size__end_size__total_expansion(length, end_size, total_expansion):
     """Calculates start size from given end size and total expansion ratio"""
     _validate_length(length)
+    _validate_start_end_size(end_size, "end")
     _validate_total_expansion(total_expansion)
 
     return end_size / total_expansion
@@ -91,6 +92,7 @@ def get_start_size__end_size__total_expansion(length, end_size, total_expansion)
 def get_end_size__start_size__total_expansion(length, start_size, total_expansion):
     """Calculates end size from given start size and total expansion ratio"""
     _validate_length(length)
+    _validate_start_end_size(start_size, "start")
     _validate_total_expansion(total_expansion)
 
     return start_size * total_expansion
@@ -114,6 +116,7 @@ def get_count__start_size__c2c_expansion(length, start_size, c2c_expansion):
 def get_count__end_size__c2c_expansion(length, end_size, c2c_expansion):
     """Calculates count from given end size and cell-to-cell expansion ratio"""
     _validate_length(length)
+    _validate_start_end_size(end_size, "end")
     _validate_c2c_expansion(c2c_expansion)
 
     if abs(c2c_expansion - 1) > constants.TOL:
